@@ -197,12 +197,13 @@ impl Uci {
         if rights.is_empty() {
             rights.push('-');
         }
-        let keys: Vec<String> = self
+        let mut keys: Vec<String> = self
             .board
             .verif_position_keys()
             .iter()
             .map(std::string::ToString::to_string)
             .collect();
+        keys.sort();
         self.log(format!(
             "verif_dump squares {squares} turn {} rights {rights} ep {} halfmove {} fullmove {} key {} record [{}]",
             match self.board.current_turn {
